@@ -204,6 +204,19 @@ CHECKS['C04'] = dict(
               'oracle with an independent box walker',
     design='C04-C03-C10')
 
+CHECKS['C03'] = dict(
+    text='Theorems (unbounded: any stored layout, any option vector, any number of emsg boxes): C03_data_offset (base + '
+         'trun.data_offset = position of the first mdat payload byte), C03_payload_untouched (the mdat boxes are never touched), '
+         'C03_sizes_nest (the size recorded for moof is that of its rewritten content), C03_emsg_before_moof (event boxes immediately '
+         'before moof, sidx dropped), C03_tfdt_width (tfdt version 1 exactly above 32 bits) about a transcription of the segment '
+         'rewrite of generate_media_segment at the level of box order, sizes and offsets. Tied to /repo over HTTP: served segments '
+         '(clear / encrypted x vod / live x $Number$ / $Time$ x DRM x PIFF x events x bugs) against the model\'s predicted layout, '
+         'decode time, data offset and senc entry position; an independent walker decides the property itself on the response bytes '
+         '(sizes nest, payload identical, offsets address it, sample sizes sum, saio -> first senc entry, senc = trun count).',
+    note=TB + 'box contents (emsg payload, PIFF copy, sample tables) are not modelled here (C04, C14); harness/shims used for the app.',
+    technique='Coq proof (arithmetic over box layouts, list induction) + HTTP differential correspondence + independent box walker oracle',
+    design='C04-C03-C10')
+
 NOT_YET = {
 }
 
